@@ -283,7 +283,12 @@ def finish(mod, ctx, t0, extra_coverage=None, assumptions=None, exhaustive=True,
                                                 len(known), time.time() - t0))
     for k, v in sorted(ctx.counters.items()):
         print("   %-40s %d" % (k, v))
+    if new:
+        # VIOLATION lines are backed by a deterministic re-run on the real code and stand on their own
+        if ctx.harness_errors:
+            print("HARNESS-ERRORS: %d in addition (see stderr)" % len(ctx.harness_errors))
+        return 1
     if ctx.harness_errors:
         print("HARNESS-ERRORS: %d (see stderr) - exit 2" % len(ctx.harness_errors))
         return 2
-    return 1 if new else 0
+    return 0
